@@ -1,5 +1,5 @@
 # replay of a bounded stand-in violation (C13): re-run native/c13_tdm.py
 import sys
-print('space_unroll N=3 T=2: 2 modes, expected timebins + concurrent - 1 = 4')
+print('delays=[2, 3], leading identity bins per loop=[1, 1]: get_crop_value() = 2, in the hand-written loop the first 1 detected pulses are vacuum and pulse 1 carries light')
 print('REPLAY-VIOLATION')
 sys.exit(1)
